@@ -57,6 +57,8 @@ var defectKinds = []string{"unknown-field", "undeclared-arg", "omitted-required-
 
 // Defect describes the injected defect (kept in Case.Note as text, and here for the oracle).
 type Defect struct {
+	// ViaVar: the required argument is written as a variable without a value
+	ViaVar   bool
 	Kind     string
 	Name     string // undefined field / argument / directive / type name
 	Key      string // response key of the defective selection ("" if it has none)
@@ -218,8 +220,21 @@ func inject(t *rapid.T, c *Case, kind string) (df Defect, ok bool) {
 			if a.Type.NonNull && !omitted {
 				omitted = true
 				df.Name = a.Name
-				if rapid.IntRange(0, 2).Draw(t, "explicitNull") == 0 {
+				switch rapid.IntRange(0, 5).Draw(t, "explicitNull") {
+				case 0, 1:
 					sel.Args = append(sel.Args, hx.KV{Key: a.Name, V: hx.Nil()})
+				case 2, 3:
+					// written, but as a variable that has no value (nullable, no default, not supplied)
+					// or was supplied as null: nothing is given for the argument
+					for _, o := range c.Doc.Ops {
+						o.Vars = append(o.Vars, &hx.VarDef{Name: "dfu", Type: a.Type.Nullable()})
+						o.Anon = false
+					}
+					if rapid.Bool().Draw(t, "nullSupplied") {
+						c.Vars = append(c.Vars, hx.KV{Key: "dfu", V: hx.Nil()})
+					}
+					sel.Args = append(sel.Args, hx.KV{Key: a.Name, V: hx.VarV("dfu")})
+					df.ViaVar = true
 				}
 				continue
 			}
@@ -580,7 +595,7 @@ func TestC10(t *testing.T) {
 	defer run.Flush()
 	classes := func(cc *c10Case, res map[string]interface{}) (bool, []string) {
 		df := cc.Defect
-		cl := []string{"strategy=" + stratName(cc.Case), "defect=" + df.Kind, "container=" + df.ConKind, fmt.Sprintf("response-key-selected-before=%v", df.KeyTaken),
+		cl := []string{"strategy=" + stratName(cc.Case), "defect=" + df.Kind, "container=" + df.ConKind, fmt.Sprintf("response-key-selected-before=%v", df.KeyTaken), fmt.Sprintf("required-argument-written-as-valueless-variable=%v", df.ViaVar),
 			fmt.Sprintf("%s/%s/%s", df.Kind, df.ConKind, stratName(cc.Case))}
 		if d, has := res["data"]; has && d != nil {
 			cl = append(cl, "partial-data-kept")
